@@ -136,8 +136,39 @@ pub fn run(ctx: &mut Ctx) -> Step {
             let best = left.iter().copied().max().unwrap_or(0);
             let cands: Vec<usize> = (0..ch.len()).filter(|&i| left[i] == best).collect();
             let pick = cands[ctx.tape.choose(cands.len() as u32) as usize];
+            // F-BYZ: a driver that asks the node for more replies than it has (`nth`, `skip`
+            // past the end).  Whatever comes back is a path through the book as far as the
+            // caller can tell, so it must be a legal move of this node's position - or nothing
+            if ctx.tape.choose(8) == 7 {
+                ctx.stats.bump("fault.byz.book-adaptor-past-the-end");
+                let n = ch.len() + ctx.tape.choose(4) as usize;
+                let legal = model.legal_moves();
+                let got: Vec<chess_lookup::BookMove> = op(Op::Book, || {
+                    let mut v: Vec<chess_lookup::BookMove> = Vec::new();
+                    v.extend(book.into_iter().nth(n));
+                    v.extend(book.into_iter().skip(n).take(4));
+                    let mut it = book.into_iter();
+                    if it.nth(ch.len()).is_none() {
+                        v.extend(it.take(4));
+                    }
+                    v
+                });
+                for x in got {
+                    let m = Mv::new(x.source.to_u8(), x.dest.to_u8(), 0);
+                    if !legal.contains(&m) {
+                        return ctx.fail(Prop::C17, "book.illegal", format!("depth={depth};via=adaptor-past-the-end"), format!("asked for reply number {n} or later of a node with {} replies, the book returned {} which is illegal by the reference rules; line {line:?}", ch.len(), m.text()));
+                    }
+                }
+                let cnt = op(Op::Book, || book.into_iter().count());
+                if cnt != ch.len() {
+                    ctx.stats.bump("c17.count-differs-from-plain-iteration");
+                }
+            }
             // the CLI takes the child by position with nth(); do the same
             let mv = op(Op::Book, || book.into_iter().nth(pick)).unwrap();
+            if (mv.source, mv.dest) != (ch[pick].source, ch[pick].dest) {
+                ctx.stats.bump("c17.nth-differs-from-plain-iteration");
+            }
             *visits.entry(ids[pick]).or_insert(0) += 1;
             ctx.stats.distinct.insert(ids[pick]);
             ctx.stats.distinct_nontrivial.insert(ids[pick]);
